@@ -1,13 +1,150 @@
-(* Proofs about the small-step model of Promise (coq/Promise/Promise.v). *)
+(* Proofs about the small-step model of Promise (coq/Promise/Promise.v): invariants of every
+   configuration reachable under ANY schedule from ANY operation list. *)
 From CV Require Import Promise.Promise.
 Open Scope Z_scope.
 
-(* the history that shows F11 on the model of answer.go as found: ask for the client of
-   path [0] twice; the second call returns the same proxy and leaves mu held by a thread that
-   has finished, so the third operation can never start *)
+(* ---------------------------------------------------------------- refuted: answer.go as found *)
+
+(* F11 on the model of answer.go as found: ask for the client of path [0] twice; the second call
+   returns the same proxy and leaves mu held by a thread that has finished, so the third
+   operation can never start *)
 Definition f11_history : list op := [OClient [0] 0; OClient [0] 1; OSend [1] false].
 
 Example client_idempotent_refuted :
   let c := run as_found (init f11_history) [0%nat; 1%nat; 2%nat] in
   finished c 1 = true /\ mu c = Some 1%nat /\ finished c 2 = false /\ enabled as_found c 2 = false.
 Proof. vm_compute. repeat split; reflexivity. Qed.
+
+(* ---------------------------------------------------------------- lists *)
+
+Lemma nth_error_upd_same : forall A (l : list A) n x y,
+  nth_error l n = Some y -> nth_error (upd n x l) n = Some x.
+Proof. induction l; destruct n; simpl; intros; try discriminate; eauto. Qed.
+
+Lemma nth_error_upd_other : forall A (l : list A) n m x,
+  n <> m -> nth_error (upd n x l) m = nth_error l m.
+Proof. induction l; destruct n, m; simpl; intros; try congruence; eauto. Qed.
+
+Lemma length_upd : forall A (l : list A) n x, length (upd n x l) = length l.
+Proof. induction l; destruct n; simpl; intros; auto. Qed.
+
+Lemma nth_upd_same : forall A (l : list A) n x d, (n < length l)%nat -> nth n (upd n x l) d = x.
+Proof. induction l; destruct n; simpl; intros; try lia; auto. apply IHl. lia. Qed.
+
+Lemma nth_upd_other : forall A (l : list A) n m x d, n <> m -> nth m (upd n x l) d = nth m l d.
+Proof. induction l; destruct n, m; simpl; intros; try congruence; auto. Qed.
+
+(* ---------------------------------------------------------------- counting events *)
+
+Definition is_begin (e : event) : bool := match e with EBegin _ => true | _ => false end.
+Definition is_resolved (e : event) : bool := match e with EResolved _ => true | _ => false end.
+Definition is_deliver (t : nat) (e : event) : bool :=
+  match e with EDeliver t' _ => Nat.eqb t t' | _ => false end.
+
+Definition cnt (f : event -> bool) (l : list event) : nat := length (filter f l).
+
+Definition b2n (b : bool) : nat := if b then 1%nat else 0%nat.
+
+Lemma cnt_cons : forall f e l, cnt f (e :: l) = (b2n (f e) + cnt f l)%nat.
+Proof. intros. unfold cnt. simpl. destruct (f e); reflexivity. Qed.
+
+(* ---------------------------------------------------------------- the invariant *)
+
+Definition is_res_op (o : op) : bool :=
+  match o with OFulfill _ _ | OReject _ => true | _ => false end.
+
+(* a call has been delivered (its EDeliver event is in the log) at these points *)
+Definition delivered_pc (p : pc) : bool :=
+  match p with PInCaller | PCallRelock | PCallFinish | PDone => true | _ => false end.
+
+Definition precommit_pc (p : pc) : bool :=
+  match p with PStopWait | PCommit => true | _ => false end.
+
+(* what holds of thread number t in configuration c *)
+Definition tinv (c : config) (t : nat) (th : thread) : Prop :=
+  let ev := events c in
+  match t_op th with
+  | OFulfill _ _ | OReject _ =>
+    match t_pc th with
+    | PStart => True
+    | PStopWait | PCommit => caller c = false /\ sig_open c = true /\ In (EBegin t) ev
+    | PFul _ | PFulWait _ _ => In (EBegin t) ev /\ In (EResolved t) ev /\ result c = Some (op_res (t_op th))
+    | PDone => t_out th = OPanic \/
+               (t_out th = ORet /\ In (EBegin t) ev /\ In (EResolved t) ev /\ result c = Some (op_res (t_op th)))
+    | _ => False
+    end
+  | OSend p _ =>
+    cnt (is_deliver t) ev = b2n (delivered_pc (t_pc th)) /\
+    (forall d, In (EDeliver t d) ev -> d = DCaller \/ d = res_dest (cur_res c) p) /\
+    t_via th = None /\
+    match t_pc th with
+    | PStart => True
+    | PCallLock | PWaitRes => t_path th = p
+    | PAfterRes => t_path th = p /\ sig_open c = false
+    | PInCaller | PCallRelock => t_path th = p /\ In (EDeliver t DCaller) ev
+    | PDone => t_out th = ORet
+    | _ => False
+    end
+  | OCall _ _ =>
+    match t_pc th with
+    | PStart | PCallLock | PWaitRes => cnt (is_deliver t) ev = 0%nat
+    | PAfterRes => cnt (is_deliver t) ev = 0%nat /\ sig_open c = false
+    | PInCaller | PCallRelock | PCallFinish => cnt (is_deliver t) ev = 1%nat
+    | PDone => (t_out th = ONoSlot /\ cnt (is_deliver t) ev = 0%nat) \/
+               (t_out th = ORet /\ cnt (is_deliver t) ev = 1%nat)
+    | _ => False
+    end
+  | OClient p _ =>
+    match t_pc th with
+    | PStart | PWaitRes => True
+    | PAfterRes => sig_open c = false
+    | PDone => exists h, t_out th = OHandle h /\
+                 match h with
+                 | HProxy x => exists px, nth_error (proxies c) x = Some px /\ px_path px = p
+                 | HDirect d => d = res_dest (cur_res c) p /\ sig_open c = false
+                 end
+    | _ => False
+    end
+  | ORelease =>
+    match t_pc th with
+    | PStart | PRel _ | PRelWait _ _ | PDone => True
+    | PAfterRes => sig_open c = false
+    | _ => False
+    end
+  | OWait =>
+    match t_pc th with
+    | PStart => True
+    | PAfterRes => sig_open c = false
+    | PDone => t_out th = OStruct (match cur_res c with RRej => false | _ => true end) /\ sig_open c = false
+    | _ => False
+    end
+  | OUngate _ => True
+  end.
+
+Definition in_precommit (th : thread) : bool := is_res_op (t_op th) && precommit_pc (t_pc th).
+
+Record Inv (c : config) : Prop := {
+  I_mu : mu c = None;
+  I_caller_sig : caller c = true -> sig_open c = true /\ result c = None;
+  I_begin : cnt is_begin (events c) = b2n (negb (caller c));
+  I_resolved : cnt is_resolved (events c) = b2n (negb (sig_open c));
+  I_result : sig_open c = false -> exists r, result c = Some r;
+  (* before resolution every delivery went to the PipelineCaller *)
+  I_early : sig_open c = true -> forall t d, In (EDeliver t d) (events c) -> d = DCaller;
+  (* deliveries to the PipelineCaller happen only before Fulfill/Reject passed its check:
+     the log (newest first) never has an EBegin below... stated as: when caller is still set,
+     nothing else than caller deliveries; and a caller delivery is never logged after EBegin *)
+  I_order : forall l1 l2 t, events c = l1 ++ EDeliver t DCaller :: l2 -> cnt is_begin l2 = 0%nat;
+  I_late : forall l1 l2 t d, events c = l1 ++ EDeliver t d :: l2 -> d <> DCaller -> cnt is_resolved l2 = 1%nat;
+  (* proxies: one per path, all in the table while the promise is unresolved *)
+  I_table : caller c = true -> map fst (clients c) = map px_path (proxies c) /\
+                               map snd (clients c) = seq 0 (length (proxies c));
+  I_paths : forall x y px py, nth_error (proxies c) x = Some px -> nth_error (proxies c) y = Some py ->
+                              px_path px = px_path py -> x = y;
+  I_px_late : forall x px, nth_error (proxies c) x = Some px ->
+                           (px_rel px = true \/ px_target px <> None) -> sig_open c = false;
+  I_slots : forall s d, In (s, HDirect d) (slots c) -> sig_open c = false;
+  I_threads : forall t th, nth_error (threads c) t = Some th -> tinv c t th;
+  I_unique : forall t1 t2 th1 th2, nth_error (threads c) t1 = Some th1 -> nth_error (threads c) t2 = Some th2 ->
+                                   in_precommit th1 = true -> in_precommit th2 = true -> t1 = t2
+}.
